@@ -953,12 +953,6 @@ theorem C18_status_class_is_4_or_5
 
 /-! ## where the `RecordsRoot` hypothesis comes from, and where it fails -/
 
-/-- One pipeline level handling several recipients: `(given, rewritten)` pairs, in order
-(`msgpipeline.AddRcpt`: `OriginalRcpts[rewritten] = given` when they differ). -/
-def recordAll (m : Addr → Addr) : List (Addr × Addr) → (Addr → Addr)
-  | [] => m
-  | p :: t => recordAll (recordLevel m p.1 p.2) t
-
 theorem recordAll_not_mem (m : Addr → Addr) (l : List (Addr × Addr)) (x : Addr)
     (h : x ∉ l.map (·.2)) : recordAll m l x = m x := by
   induction l generalizing m with
@@ -1053,7 +1047,358 @@ theorem C18_failed_set_is_C01s (maxTries : Nat) (k : Kind) (p : Plan) (now : Add
   rw [this]
 
 
+/-! ## the real pipeline in front of the queue (1-to-N rewriting, recipients handled after the
+queue delivery was started) -/
+
+theorem frontSteps_snd (outer : Rules) (given : List Addr) :
+    (frontSteps outer none given).map (·.2) = frontRcpts outer none given := by
+  simp only [frontSteps, frontRcpts]
+  induction given with
+  | nil => rfl
+  | cons a t ih =>
+    simp only [List.flatMap_cons, List.map_append, ih]
+    congr 1
+    simp [Rules.pairs, List.map_map, Function.comp_def]
+
+theorem mem_frontSteps (outer : Rules) (given : List Addr) (p : Addr × Addr)
+    (hp : p ∈ frontSteps outer none given) : p.1 ∈ given ∧ p.2 ∈ outer.outputs p.1 := by
+  simp only [frontSteps, List.mem_flatMap, Rules.pairs, List.mem_map] at hp
+  obtain ⟨a, ha, o, ho, rfl⟩ := hp
+  exact ⟨ha, ho⟩
+
+/-- **A message that reached the queue through ONE real pipeline is reported under the addresses
+the sender used** — for every recipient, wherever it stands in the transaction (the queue
+delivery is started while the pipeline handles the first one), with aliases expanding 1-to-N:
+whenever the effective recipients are distinct and `root` names, for every effective address, the
+address it was expanded from, every report has one group per terminally failed recipient, in
+order, each under the conversion of `root r`.  Several groups may show the SAME address (two
+members of one alias failing): they are separate groups. -/
+theorem C18_pipeline_fed_queue_names_senders_addresses
+    (cfg : Cfg) (maxTries : Nat) (now : Addr → Option Err) (failAt : Option Stage)
+    (outer : Rules) (given : List Addr) (m : MsgMeta)
+    (hnd : (frontRcpts outer none given).Nodup) (hne : ∀ a ∈ given, a ≠ 0)
+    (root : Addr → Addr) (hroot : ∀ a ∈ given, ∀ o ∈ outer.outputs a, root o = a)
+    (rep : Report)
+    (hrep : rep ∈ reportsOf (bounces (attempt cfg maxTries now failAt (viaFront outer none given m)).2)) :
+    rep.rcpts.map (fun g => some g.addr) =
+      (failedNow maxTries now (viaFront outer none given m)).map
+        (fun r => cfg.idna.addr m.utf8 (cfg.name (root r))) ∧
+    rep.rcpts.length = (failedNow maxTries now (viaFront outer none given m)).length := by
+  have hrr : RecordsRoot (viaFront outer none given m).msg.origRcpts root (viaFront outer none given m).to := by
+    have h := C18_one_pipeline_records_root (frontSteps outer none given)
+      (by rw [frontSteps_snd]; exact hnd)
+      (fun p hp => hne _ (mem_frontSteps outer given p hp).1) root
+      (fun p hp => hroot _ (mem_frontSteps outer given p hp).1 _ (mem_frontSteps outer given p hp).2)
+    rw [frontSteps_snd] at h
+    exact h
+  have h := C18_lists_exactly_failed_under_original_addresses cfg maxTries now failAt
+    (viaFront outer none given m) hnd root hrr rep hrep
+  exact ⟨h.1, h.2.1⟩
+
+/-- Why the queue must see the map as it is AFTER the transaction: had it kept the map as it was
+when its delivery was started (after the first recipient), the second recipient — rewritten
+2 → 3 — would be reported as 3, the alias target.  With the real (final) map it is reported as 2. -/
+theorem C18_start_time_snapshot_counterexample :
+    let outer : Rules := ⟨fun a => if a = 2 then some [3] else none, fun _ => none, fun _ => none⟩
+    let q := viaFront outer none [1, 2] { cexMsg with origRcpts := fun _ => 0 }
+    let now : Addr → Option Err := fun r => if r = 3 then some (.smtp 550 ⟨5, 1, 1⟩ []) else none
+    let snap : QMeta := { q with msg := { q.msg with origRcpts := recordAll (fun _ => 0) (frontSteps outer none [1]) } }
+    q.to = [1, 3] ∧
+    (reportsOf (bounces (attempt cexCfg 1 now none q).2)).map (fun rep => rep.rcpts.map (·.addr)) = [[[2]]] ∧
+    (reportsOf (bounces (attempt cexCfg 1 now none snap).2)).map (fun rep => rep.rcpts.map (·.addr)) = [[[3]]] := by
+  decide
+
+/-! ## which error a recipient is reported with (`Queue.deliver`) -/
+
+theorem clsOfErr_not_ok (e : Err) : (clsOfErr e).isOk = false := by
+  unfold clsOfErr
+  cases tempOf e with
+  | none => rfl
+  | some b => cases b <;> rfl
+
+/-- The class a stage result has for C01's model. -/
+def clsOpt (o : Option Err) : Cls := (o.map clsOfErr).getD .ok
+
+theorem clsOpt_isOk (o : Option Err) : (clsOpt o).isOk = o.isNone := by
+  cases o with
+  | none => rfl
+  | some e => simp [clsOpt, clsOfErr_not_ok]
+
+/-- The fault plan C01's model sees of a value-level plan. -/
+def clsPlan (p : APlan) : Plan :=
+  { start := clsOpt p.start, rcpt := fun r => clsOpt (p.rcpt r), body := clsOpt p.body,
+    bodyRc := fun r => clsOpt (p.bodyRc r), commit := clsOpt p.commit }
+
+theorem clsOpt_some (o : Option Err) (h : o.isSome) : some (clsOpt o) = o.map clsOfErr := by
+  cases o with
+  | none => cases h
+  | some e => rfl
+
+/-- **`deliverErrs` is `Queue.deliver` with values**: the classes of the errors it attributes are
+the ones C01's `deliver` attributes, recipient by recipient — the hypothesis of
+`C18_failed_set_is_C01s` holds for `now := deliverErrs k p q.to`. -/
+theorem deliverErrs_cls (k : Kind) (p : APlan) (to : List Addr) (r : Addr) :
+    (deliverErrs k p to r).map clsOfErr = (deliver k (clsPlan p) to).1 r := by
+  have hacc : to.filter (fun r => ((clsPlan p).rcpt r).isOk) = to.filter (fun r => (p.rcpt r).isNone) := by
+    apply List.filter_congr; intro x _; simp [clsPlan, clsOpt_isOk]
+  unfold deliver deliverErrs
+  cases hs : p.start with
+  | some e =>
+    simp only [clsPlan, clsOpt, hs, Option.map, Option.getD, clsOfErr_not_ok]
+    by_cases h : r ∈ to <;> simp [h]
+  | none =>
+    have hst : (clsPlan p).start.isOk = true := by simp [clsPlan, clsOpt_isOk, hs]
+    simp only [hst, Bool.not_true, Bool.false_eq_true, ↓reduceIte, hacc]
+    -- the errors after the RCPT stage
+    have he1 : ∀ x, (if x ∈ to then p.rcpt x else none).map clsOfErr =
+        (if x ∈ to ∧ (!((clsPlan p).rcpt x).isOk) = true then some ((clsPlan p).rcpt x) else none) := by
+      intro x
+      by_cases hx : x ∈ to
+      · cases hr : p.rcpt x with
+        | none => simp [hx, clsPlan, clsOpt, hr, Cls.isOk]
+        | some e => simp [hx, clsPlan, clsOpt, hr, clsOfErr_not_ok]
+      · simp [hx]
+    by_cases hemp : (to.filter (fun r => (p.rcpt r).isNone)).isEmpty = true
+    · simp only [hemp, ↓reduceIte]
+      exact he1 r
+    · simp only [hemp, Bool.false_eq_true, ↓reduceIte]
+      cases k with
+      | atomic =>
+        cases hb : p.body with
+        | some e =>
+          have hbo : (!((clsPlan p).body).isOk) = true := by simp [clsPlan, clsOpt_isOk, hb]
+          simp only [hbo, ↓reduceIte]
+          have he2 : ∀ x, (if x ∈ to.filter (fun r => (p.rcpt r).isNone) then some e else
+                (if x ∈ to then p.rcpt x else none)).map clsOfErr =
+              (if x ∈ to.filter (fun r => (p.rcpt r).isNone) then some ((clsPlan p).body) else
+                (if x ∈ to ∧ (!((clsPlan p).rcpt x).isOk) = true then some ((clsPlan p).rcpt x) else none)) := by
+            intro x
+            by_cases hx : x ∈ to.filter (fun r => (p.rcpt r).isNone)
+            · simp [hx, clsPlan, clsOpt, hb]
+            · simp only [hx, ↓reduceIte]; exact he1 x
+          have hall : (to.filter (fun r => (p.rcpt r).isNone)).all (fun x =>
+                (if x ∈ to.filter (fun r => (p.rcpt r).isNone) then some e else
+                  (if x ∈ to then p.rcpt x else none)).isSome) =
+              (to.filter (fun r => (p.rcpt r).isNone)).all (fun x =>
+                (if x ∈ to.filter (fun r => (p.rcpt r).isNone) then some ((clsPlan p).body) else
+                  (if x ∈ to ∧ (!((clsPlan p).rcpt x).isOk) = true then some ((clsPlan p).rcpt x) else none)).isSome) := by
+            apply List.all_congr rfl; intro x; rw [← he2 x]; simp
+          rw [← hall]
+          split
+          · exact he2 r
+          · cases hc : p.commit with
+            | some c =>
+              have hco : (!((clsPlan p).commit).isOk) = true := by simp [clsPlan, clsOpt_isOk, hc]
+              simp only [hco, ↓reduceIte]
+              by_cases hx : r ∈ to.filter (fun r => (p.rcpt r).isNone)
+              · simp [hx, clsPlan, clsOpt, hc]
+              · simp only [hx, ↓reduceIte]; exact he1 r
+            | none =>
+              have hco : (!((clsPlan p).commit).isOk) = false := by simp [clsPlan, clsOpt_isOk, hc]
+              simp only [hco, Bool.false_eq_true, ↓reduceIte]
+              exact he2 r
+        | none =>
+          have hbo : (!((clsPlan p).body).isOk) = false := by simp [clsPlan, clsOpt_isOk, hb]
+          simp only [hbo, Bool.false_eq_true, ↓reduceIte]
+          have hall : (to.filter (fun r => (p.rcpt r).isNone)).all (fun x =>
+                (if x ∈ to then p.rcpt x else none).isSome) =
+              (to.filter (fun r => (p.rcpt r).isNone)).all (fun x =>
+                (if x ∈ to ∧ (!((clsPlan p).rcpt x).isOk) = true then some ((clsPlan p).rcpt x) else none).isSome) := by
+            apply List.all_congr rfl; intro x; rw [← he1 x]; simp
+          rw [← hall]
+          split
+          · exact he1 r
+          · cases hc : p.commit with
+            | some c =>
+              have hco : (!((clsPlan p).commit).isOk) = true := by simp [clsPlan, clsOpt_isOk, hc]
+              simp only [hco, ↓reduceIte]
+              by_cases hx : r ∈ to.filter (fun r => (p.rcpt r).isNone)
+              · simp [hx, clsPlan, clsOpt, hc]
+              · simp only [hx, ↓reduceIte]; exact he1 r
+            | none =>
+              have hco : (!((clsPlan p).commit).isOk) = false := by simp [clsPlan, clsOpt_isOk, hc]
+              simp only [hco, Bool.false_eq_true, ↓reduceIte]
+              exact he1 r
+      | partialD =>
+        have he2 : ∀ x, (if x ∈ to.filter (fun r => (p.rcpt r).isNone) ∧ (p.bodyRc x).isSome = true then p.bodyRc x else
+              (if x ∈ to then p.rcpt x else none)).map clsOfErr =
+            (if x ∈ to.filter (fun r => (p.rcpt r).isNone) ∧ (!((clsPlan p).bodyRc x).isOk) = true then some ((clsPlan p).bodyRc x) else
+              (if x ∈ to ∧ (!((clsPlan p).rcpt x).isOk) = true then some ((clsPlan p).rcpt x) else none)) := by
+          intro x
+          cases hbx : p.bodyRc x with
+          | none =>
+            have h1 : ((clsPlan p).bodyRc x).isOk = true := by simp [clsPlan, clsOpt_isOk, hbx]
+            simp only [h1, Option.isSome_none, Bool.false_eq_true, and_false, Bool.not_true, ↓reduceIte]
+            exact he1 x
+          | some e =>
+            by_cases hx : x ∈ to.filter (fun r => (p.rcpt r).isNone)
+            · simp [hx, clsPlan, clsOpt, hbx, clsOfErr_not_ok]
+            · simp only [hx, false_and, ↓reduceIte]; exact he1 x
+        have hall : (to.filter (fun r => (p.rcpt r).isNone)).all (fun x =>
+              (if x ∈ to.filter (fun r => (p.rcpt r).isNone) ∧ (p.bodyRc x).isSome = true then p.bodyRc x else
+                (if x ∈ to then p.rcpt x else none)).isSome) =
+            (to.filter (fun r => (p.rcpt r).isNone)).all (fun x =>
+              (if x ∈ to.filter (fun r => (p.rcpt r).isNone) ∧ (!((clsPlan p).bodyRc x).isOk) = true then some ((clsPlan p).bodyRc x) else
+                (if x ∈ to ∧ (!((clsPlan p).rcpt x).isOk) = true then some ((clsPlan p).rcpt x) else none)).isSome) := by
+          apply List.all_congr rfl; intro x; rw [← he2 x]; simp
+        simp only []
+        rw [← hall]
+        split
+        · exact he2 r
+        · cases hc : p.commit with
+          | some c =>
+            have hco : (!((clsPlan p).commit).isOk) = true := by simp [clsPlan, clsOpt_isOk, hc]
+            simp only [hco, ↓reduceIte]
+            by_cases hx : r ∈ to.filter (fun r => (p.rcpt r).isNone)
+            · simp [hx, clsPlan, clsOpt, hc]
+            · rw [if_neg hx, if_neg hx]; exact he2 r
+          | none =>
+            have hco : (!((clsPlan p).commit).isOk) = false := by simp [clsPlan, clsOpt_isOk, hc]
+            simp only [hco, Bool.false_eq_true, ↓reduceIte]
+            exact he2 r
+
+/-- Hence the failed set `emitDSN` is called with, in an attempt whose errors are those of
+`deliverErrs`, is the one C01's `tryDelivery` reports — no hypothesis left. -/
+theorem C18_deliver_failed_set_is_C01s (maxTries : Nat) (k : Kind) (p : APlan) (q : QMeta) :
+    split maxTries (deliverErrs k p q.to) q =
+      classify maxTries (deliver k (clsPlan p) q.to).1 q.to ⟨q.tries, [], []⟩ :=
+  C18_failed_set_is_C01s maxTries k (clsPlan p) (deliverErrs k p q.to) q (deliverErrs_cls k p q.to)
+
+/-- **A recipient refused at RCPT keeps its own error**: whatever happens later in the same
+attempt (the message refused at DATA, per-recipient LMTP statuses, a failing Commit — all of which
+concern the ACCEPTED recipients), the error `deliver` attributes to a recipient the target refused
+at `AddRcpt` is the error of that refusal. -/
+theorem C18_refused_at_rcpt_keeps_own_error (k : Kind) (p : APlan) (to : List Addr) (r : Addr)
+    (hs : p.start = none) (hr : r ∈ to) (e : Err) (he : p.rcpt r = some e) :
+    deliverErrs k p to r = some e := by
+  have hna : r ∉ to.filter (fun r => (p.rcpt r).isNone) := by simp [he]
+  unfold deliverErrs
+  simp only [hs]
+  split
+  · simp [hr, he]
+  · cases k with
+    | atomic =>
+      cases hb : p.body with
+      | some b =>
+        simp only []
+        split
+        · simp [hna, hr, he]
+        · cases hc : p.commit <;> simp [hna, hr, he]
+      | none =>
+        simp only []
+        split
+        · simp [hr, he]
+        · cases hc : p.commit <;> simp [hna, hr, he]
+    | partialD =>
+      simp only []
+      split
+      · simp [hna, hr, he]
+      · cases hc : p.commit <;> simp [hna, hr, he]
+
+/-- …and the report says so: in every report of an attempt whose errors are those of `deliver`,
+the group of a recipient refused at RCPT carries Status and Diagnostic-Code of `toSMTPErr` of ITS
+refusal — not of the DATA / Commit failure of the same attempt. -/
+theorem C18_refused_recipient_reported_with_own_error
+    (cfg : Cfg) (maxTries : Nat) (k : Kind) (p : APlan) (failAt : Option Stage) (q : QMeta)
+    (hnd : q.to.Nodup) (hs : p.start = none)
+    (rep : Report)
+    (hrep : rep ∈ reportsOf (bounces (attempt cfg maxTries (deliverErrs k p q.to) failAt q).2))
+    (i : Nat) (r : Addr) (hi : (failedNow maxTries (deliverErrs k p q.to) q)[i]? = some r)
+    (e : Err) (he : p.rcpt r = some e) :
+    (rep.rcpts[i]?).map (fun g => (g.status, g.diag)) =
+      some (storedEnch (toSMTPErr e),
+            DiagOut.smtp (toSMTPErr e).code (storedEnch (toSMTPErr e)) (shownText q.msg.utf8 (toSMTPErr e))) := by
+  have h := C18_status_is_last_error cfg maxTries (deliverErrs k p q.to) failAt q hnd rep hrep
+  have hr : r ∈ q.to := by
+    have : r ∈ failedNow maxTries (deliverErrs k p q.to) q := List.mem_of_getElem? hi
+    exact (mem_failedNow this).1
+  have hown := C18_refused_at_rcpt_keeps_own_error k p q.to r hs hr e he
+  have h2 := congrArg (fun l => l[i]?) h
+  simp only [List.getElem?_map, hi, Option.map_some, hown] at h2
+  cases hg : rep.rcpts[i]? with
+  | none => simp [hg] at h2
+  | some g => simp only [hg, Option.map_some] at h2 ⊢; exact Option.some.inj h2
+
+/-- An accepted recipient ends the attempt without error or with the error of the body stage
+(DATA, or its own LMTP status) or of Commit — never with another recipient's RCPT refusal. -/
+theorem C18_accepted_recipient_error_is_from_data_or_commit (k : Kind) (p : APlan) (to : List Addr)
+    (r : Addr) (hs : p.start = none) (hr : p.rcpt r = none) (e : Err)
+    (he : deliverErrs k p to r = some e) :
+    p.body = some e ∨ p.bodyRc r = some e ∨ p.commit = some e := by
+  have h1 : (if r ∈ to then p.rcpt r else none) ≠ some e := by
+    by_cases h : r ∈ to <;> simp [h, hr]
+  unfold deliverErrs at he
+  simp only [hs] at he
+  split at he
+  · exact absurd he h1
+  · cases k with
+    | atomic =>
+      cases hb : p.body with
+      | some b =>
+        have h2 : (if r ∈ to.filter (fun r => (p.rcpt r).isNone) then some b
+            else (if r ∈ to then p.rcpt r else none)) = some e → some b = some e := by
+          intro h; split at h
+          · exact h
+          · exact absurd h h1
+        simp only [hb] at he
+        split at he
+        · left; exact h2 he
+        · cases hc : p.commit with
+          | some c =>
+            simp only [hc] at he
+            by_cases hx : r ∈ to.filter (fun r => (p.rcpt r).isNone)
+            · right; right; simpa [hx] using he
+            · left; apply h2; simpa [hx] using he
+          | none => simp only [hc] at he; left; exact h2 he
+      | none =>
+        simp only [hb] at he
+        split at he
+        · exact absurd he h1
+        · cases hc : p.commit with
+          | some c =>
+            simp only [hc] at he
+            by_cases hx : r ∈ to.filter (fun r => (p.rcpt r).isNone)
+            · right; right; simpa [hx] using he
+            · exfalso; apply h1; simpa [hx] using he
+          | none => simp only [hc] at he; exact absurd he h1
+    | partialD =>
+      have h2 : (if r ∈ to.filter (fun r => (p.rcpt r).isNone) ∧ (p.bodyRc r).isSome = true then p.bodyRc r
+          else (if r ∈ to then p.rcpt r else none)) = some e → p.bodyRc r = some e := by
+        intro h; split at h
+        · exact h
+        · exact absurd h h1
+      simp only [] at he
+      split at he
+      · right; left; exact h2 he
+      · cases hc : p.commit with
+        | some c =>
+          simp only [hc] at he
+          by_cases hx : r ∈ to.filter (fun r => (p.rcpt r).isNone)
+          · right; right; simpa [hx] using he
+          · right; left; apply h2; rw [if_neg hx] at he; exact he
+        | none => simp only [hc] at he; right; left; exact h2 he
+
 /-! ## non-vacuity: concrete instances of the hypotheses -/
+
+/-- recipient 1 refused at RCPT (550 5.1.1), the message then refused at DATA (552 5.3.4) for 2 -/
+def exPlan : APlan :=
+  { start := none, rcpt := fun r => if r = 1 then some (.smtp 550 ⟨5, 1, 1⟩ []) else none,
+    body := some (.smtp 552 ⟨5, 3, 4⟩ []), bodyRc := fun _ => none, commit := none }
+
+example : ((deliverErrs .atomic exPlan [1, 2] 1).map (fun e => (toSMTPErr e).code),
+           (deliverErrs .atomic exPlan [1, 2] 2).map (fun e => (toSMTPErr e).code)) = (some 550, some 552) := by decide
+
+example : (reportsOf (bounces (attempt cexCfg 1 (deliverErrs .atomic exPlan [1, 2]) none
+      ⟨[1, 2], fun _ => 0, { cexMsg with origRcpts := fun _ => 0 }⟩).2)).map
+    (fun rep => rep.rcpts.map (·.status)) = [[⟨5, 1, 1⟩, ⟨5, 3, 4⟩]] := by decide
+
+/-- an alias 1 → [2, 3] and an untouched recipient 4: hypotheses of
+`C18_pipeline_fed_queue_names_senders_addresses` -/
+def exRules : Rules := ⟨fun a => if a = 1 then some [2, 3] else none, fun _ => none, fun _ => none⟩
+
+example : (frontRcpts exRules none [4, 1]).Nodup := by decide
+example : frontRcpts exRules none [4, 1] = [4, 2, 3] := by decide
+example : ∀ a ∈ [4, 1], ∀ o ∈ exRules.outputs a, (fun o => if o = 4 then 4 else 1) o = a := by decide
 
 /-- Recipient 2 is what one pipeline made of the sender's 1; recipient 4 was not rewritten. -/
 def exMsg : MsgMeta :=
